@@ -84,6 +84,7 @@ vfs_new(void) {
   v->fds = calloc(v->nfds, sizeof(vfd_t));
   v->fault.at = -1;
   v->fault.short_n = -1;
+  v->fault.sel_short = -1;
   v->rlimit_nofile = vfs_default_rlimit;
   return v;
 }
@@ -413,6 +414,7 @@ vfs_fault_clear(vfs_t *v) {
   v->fault.sel_kind = 0;
   v->fault.sel_ord = 0;
   v->fault.sel_seen = 0;
+  v->fault.sel_short = -1;
   v->fault.sel_name[0] = 0;
 }
 
@@ -585,6 +587,13 @@ fault_check(vfs_t *v, int kind, const char *name, size_t len, long *short_n) {
   if (f->sel_kind && kind == f->sel_kind && name && strstr(base_of(name), f->sel_name)) {
     if (++f->sel_seen == f->sel_ord) {
       f->fired++;
+      if (f->sel_short >= 0 && (kind == C_READ || kind == C_WRITE)) {
+        long n = f->sel_short;
+        if ((size_t)n >= len)
+          return 0;   /* not short for this call: proceed normally */
+        *short_n = n;
+        return 2;
+      }
       errno = f->err;
       return 1;
     }
@@ -607,7 +616,8 @@ fault_check(vfs_t *v, int kind, const char *name, size_t len, long *short_n) {
     if ((size_t)n >= len)
       n = len ? (long)len - 1 : 0;
     *short_n = n;
-    f->pending_err = 1;
+    if (f->err != 0)
+      f->pending_err = 1;   /* err == 0: a legal short transfer, nothing fails afterwards */
     return 2;
   }
   errno = f->err;
